@@ -13,10 +13,34 @@ package datamatrix
 //@ define dmDataCW(s *dmCodeSize) int = ((((s.Columns - s.RegionCountHorizontal*2) / s.RegionCountHorizontal) * s.RegionCountHorizontal)
 //@      * (((s.Rows - s.RegionCountVertical*2) / s.RegionCountVertical) * s.RegionCountVertical)) / 8 - s.ECCCount
 
+// ---- ISO 16022 ASCII encodation (5.2.3): scanning from the left, two adjacent digits become one
+// codeword 130 + their value, an ASCII character c becomes c + 1, a byte above 127 becomes the
+// upper-shift 235 followed by c - 127. dmB(i): i is where a scan step starts; dmO(i): number of
+// codewords emitted before position i (for step starts).
+//@ define dmDigit(c int) bool = 48 <= c && c <= 57
+//@ define dmPair(a map[int]int, n int, j int) bool = 0 <= j && j + 1 < n && dmDigit(a[j]) && dmDigit(a[j+1])
+//@ define dmW(a map[int]int, n int, j int) int = dmPair(a, n, j) ? 1 : ((a[j] > 127) ? 2 : 1)
+//@ specdef dmB(a map[int]int, n int, i int) bool = (i <= 0) ? (i == 0) : ((dmB(a, n, i-1) && !dmPair(a, n, i-1)) || (i >= 2 && dmB(a, n, i-2) && dmPair(a, n, i-2)))
+//@ specdef dmO(a map[int]int, n int, i int) int = (i <= 0) ? 0 : ((i >= 2 && dmB(a, n, i-2) && dmPair(a, n, i-2)) ? (dmO(a, n, i-2) + 1) : (dmO(a, n, i-1) + ((a[i-1] > 127) ? 2 : 1)))
+// the codeword(s) of the step that starts at input position b, found at output position o
+//@ define dmCW(r []byte, o int, a map[int]int, n int, b int) bool = dmPair(a, n, b) ? (r[o] == 130 + 10*(a[b]-48) + (a[b+1]-48)) : ((a[b] > 127) ? (r[o] == 235 && r[o+1] == a[b] - 127) : (r[o] == a[b] + 1))
+// a position cannot start a step if the previous step start consumed it as second digit
+//@ define dmU(a map[int]int, n int, j int) bool = !(dmB(a, n, j) && dmB(a, n, j+1) && dmPair(a, n, j))
+
 //@ func encodeText
 //@   attr unwind_abstract select
 //@   attr fresh_result ? 0 256
-//@   ensures fresh(result)
+//@   requires len(content) <= 100000000
+//@   ensures len(result) == 0 || fresh(result)
+//@   ensures dmB(bytes(content), len(content), len(content)) && len(result) == dmO(bytes(content), len(content), len(content))
+//@   ensures forall b int :: 0 <= b && b < len(content) && dmB(bytes(content), len(content), b) ==> dmCW(result, dmO(bytes(content), len(content), b), bytes(content), len(content), b)
+//@   loop 1 invariant 0 <= i && i <= len(input) && len(input) == len(content) && fresh(input) && (cap(result) == 0 || fresh(result)) && result.ref != input.ref
+//@   loop 1 invariant forall k int :: 0 <= k && k < len(content) ==> input[k] == content[k]
+//@   loop 1 invariant dmB(bytes(content), len(content), i) && len(result) == dmO(bytes(content), len(content), i) && len(result) <= 2*i
+//@   loop 1 invariant forall j int :: 0 <= j && j < i ==> dmU(bytes(content), len(content), j)
+//@   loop 1 invariant forall b int :: 0 <= b && b < i && dmB(bytes(content), len(content), b) ==> 0 <= dmO(bytes(content), len(content), b) && dmO(bytes(content), len(content), b) + dmW(bytes(content), len(content), b) <= len(result)
+//@   loop 1 invariant forall b int :: 0 <= b && b < i && dmB(bytes(content), len(content), b) ==> dmCW(result, dmO(bytes(content), len(content), b), bytes(content), len(content), b)
+//@   loop 1 decreases len(input) - i
 
 // ISO 16022 5.2.3: the first pad is 129, every further pad at 1-based codeword position p is the
 // 253-state randomisation of 129
